@@ -280,8 +280,14 @@ def dedupStr : List String → List String
 
 /-! ### quantities computed by `StructMeta.__new__` (total functions of world and source) -/
 
+/-- a literal `None` is no default at all: `_default is None` is typedpy's test for "has no
+    default" (`default=None`, and `a: F = None` once it has passed validation) -/
+def litNone : Option Dflt → Option Dflt
+  | some (.lit .none) => none
+  | d => d
+
 def entryMember : SrcEntry → Option Member
-  | .field d kw eq => some (.field d (if eq.isSome && !optTruthy kw then eq else kw))
+  | .field d kw eq => some (.field d (litNone (if eq.isSome && !optTruthy kw then eq else kw)))
   | .obj m => some m
   | .attr _ => none
 
